@@ -27,6 +27,7 @@ import (
 	"github.com/benbjohnson/litestream/file"
 	"github.com/superfly/ltx"
 
+	"verif/harness/internal/oracle"
 	"verif/harness/internal/sq"
 )
 
@@ -1327,7 +1328,14 @@ func (c *child) opTable() []opDef {
 		ops = append(ops, opDef{"ResetLocalState", 1, onOpen("ResetLocalState", func(g *gctx, m *mainDB, d *litestream.DB) {
 			ctx, cancel := ctxT(t5)
 			defer cancel()
-			c.call(g, "ResetLocalState", m.name, func() error { return d.ResetLocalState(ctx) })
+			e := Event{G: g.id, Op: "ResetLocalState", DB: m.name}
+			c.do(g, &e, func() error {
+				err := d.ResetLocalState(ctx)
+				// what the replica held at the moment the reset returned
+				_, l0, hi := snapshotAheadOfL0(m.rep)
+				e.Note = fmt.Sprintf("l0max=%d himax=%d", l0, hi)
+				return err
+			})
 		})})
 	}
 	if c.spec.Profile == "ckpt-interrupt" {
@@ -1488,4 +1496,19 @@ func sortedKeys(m map[string]int) []string {
 	}
 	sort.Strings(a)
 	return a
+}
+
+// snapshotAheadOfL0 reports whether the replica directory holds a file at
+// level >= 1 whose MaxTXID exceeds the highest level-0 TXID on the replica.
+func snapshotAheadOfL0(rep string) (ahead bool, l0max, himax int) {
+	for _, f := range oracle.ListAll(rep) {
+		if f.Level == 0 {
+			if f.Max > l0max {
+				l0max = f.Max
+			}
+		} else if f.Max > himax {
+			himax = f.Max
+		}
+	}
+	return himax > l0max, l0max, himax
 }
